@@ -1,5 +1,5 @@
 import Nstd.Str.LemmasStep
-import Nstd.Str.LemmasTotal
+import Nstd.Str.LemmasTotal2
 import Nstd.Str.LemmasView
 /-!
   Property C06 — String is an independent byte-string value matching a reference model.
@@ -136,20 +136,52 @@ theorem cstr_terminated {n : Nat} {regs : Nat → List Nat} {s s' : St} (r : Rea
     exact ⟨t, E.silent.abs⟩
   · cases e
 
-/-- **No fault** (`_partial`: for the calls listed in `NoFaultOp`): in every reachable state these calls
-    perform only in-range loads, branch only on initialised chars and store only into a block the
-    variable owns exclusively — for every argument, including the variable itself.  What the caller
-    must provide is exactly `NoFaultOp`: existing variables, `attach` with one readable byte behind the
-    range, the copy constructor applied to another object. -/
-theorem no_fault_partial {n : Nat} {regs : Nat → List Nat} {s : St} (r : Reach n regs s) {op : Op}
-    (ok : NoFaultOp s op) : ∃ s', step s op = some s' :=
-  step_total (reach_good r) ok
+/-- **No fault**: in every reachable state every mutating call whose arguments are valid (`ValidArgs`: the
+    variables exist, `attach` gets a range with one readable byte behind it, the copy constructor is
+    applied to another object) and which lies in the domain of the specification (`Spec.newVal … ≠ none`:
+    calls that branch on chars get specified chars, the C-string based ones NUL-free values,
+    `token(const char*, start)` has `start ≤ length()`) performs only in-range loads, branches only on
+    initialised chars, stores only into a block the variable owns exclusively and its loops terminate
+    (the fuel of `replace` suffices) — for all arguments, including the variable itself. -/
+theorem no_fault {n : Nat} {regs : Nat → List Nat} {s : St} (r : Reach n regs s) {op : Op}
+    (va : ValidArgs s op) (dom : (Spec.newVal s.regs (absVar s) op).isSome = true) : ∃ s', step s op = some s' :=
+  step_total_all (reach_good r) va dom
 
-/- OPEN: no_fault
-   the same for fillFrom, prepend, substr, printf (no further precondition), and for
-   replace(char,char) / toLowerCase / toUpperCase / trim / token / join / replace(String,String) under
-   "the chars of the variables read are specified (no `none` byte)" and, for `tokenS`, `start ≤ length()`;
-   plus the queries (compare, find…, startsWith, toBool, hash) under the same condition. -/
+theorem validArgs_congr {s s1 : St} (hn : s1.n = s.n) (hr : s1.regs = s.regs) (op : Op) :
+    ValidArgs s1 op ↔ ValidArgs s op := by
+  cases op <;> simp only [ValidArgs, validVar, userVars, hn, hr] <;> exact Iff.rfl
+
+/-- **Specified histories run to the specified state**: a history with valid arguments that the
+    specification accepts executes on the model without any fault, and ends with every variable holding
+    the reference bytes (no_fault and refines together, from the initial state). -/
+theorem run_total {s : St} (g : Good s) : ∀ {ops : List Op} {σ' : Nat → List Byte},
+    (∀ op ∈ ops, ValidArgs s op) → Spec.run s.regs (absVar s) ops = some σ' →
+    ∃ s', run s ops = some s' ∧ ∀ w, absVar s' w = σ' w
+  | [], σ', _, es => by
+    simp only [Spec.run, Option.some.injEq] at es; subst es
+    exact ⟨s, rfl, fun _ => rfl⟩
+  | op :: ops, σ', va, es => by
+    simp only [Spec.run, Option.bind_eq_some_iff, Spec.step, Option.map_eq_some_iff] at es
+    obtain ⟨σ1, ⟨val, hval, rfl⟩, es⟩ := es
+    obtain ⟨s1, h1⟩ := step_total_all g (va op (by simp)) (by rw [hval]; rfl)
+    obtain ⟨val', E, hx⟩ := step_ok g h1
+    have hv := hx val hval
+    subst hv
+    have eqf : absVar s1 = upd (absVar s) op.target val' := by
+      funext w
+      by_cases c : w = op.target
+      · subst c; rw [upd_same]; exact E.self
+      · rw [upd_other _ _ _ _ c]; exact E.other w c
+    obtain ⟨s', hr, hw⟩ := run_total (good_step g h1) (ops := ops) (σ' := σ')
+      (fun o ho => (validArgs_congr E.n E.regs o).mpr (va o (by simp [ho])))
+      (by rw [E.regs, eqf]; exact es)
+    exact ⟨s', by simp only [run, h1, Option.bind_some]; exact hr, hw⟩
+
+/- OPEN: no_fault for the queries
+   the read-only calls (compare…, find…, startsWith/endsWith, toBool, hash, split) are not part of `Op`;
+   their absence of faults under "specified, NUL-free chars" is not stated here.  Their results are
+   related to the values by the query lemmas below; faults of the real code on these calls are looked for
+   by the correspondence run (ASan, exactly sized buffers). -/
 
 /-! ### query lemmas: the answers are the libc reference functions applied to the values -/
 
@@ -205,5 +237,40 @@ theorem trim_spec (chars c : List Nat) :
           - (c.takeWhile (inSet chars)).length)
       = ((c.dropWhile (inSet chars)).reverse.dropWhile (inSet chars)).reverse :=
   trim_range _ c
+
+/-! ### non-vacuity: a concrete history with literal and unterminated attached memory, lazy copies,
+    self arguments, temporaries and C-string based calls meets every hypothesis used above -/
+
+def exampleRegs : Nat → List Nat
+  | 0 => [97, 98, 0]                -- literal "ab"
+  | 1 => [97, 98, 47, 32, 0xEE]     -- attached "ab/ " followed by a guard byte that is not NUL
+  | _ => []
+
+def exampleProg : List Op :=
+  [.attach 0 0 0 2, .assign 1 0, .attach 2 1 0 4, .appendS 2 2, .prependS 1 1, .assign 3 1, .cview 2,
+   .replaceL 1 [98] [120, 121], .tokenC 0 1 121 0, .upper 3, .trim 2 [97, 32], .resize 0 1,
+   .substr 0 0 (-1) (-1)]
+
+example : ∀ op ∈ exampleProg, ValidArgs (init 7 exampleRegs) op := by
+  simp [exampleProg, ValidArgs, validVar, userVars, init, exampleRegs]
+
+example : ∃ σ, Spec.run exampleRegs (fun _ => []) exampleProg = some σ ∧
+    σ 1 = [some 97, some 120, some 121, some 97, some 120, some 121] ∧
+    σ 2 = [some 98, some 47, some 32, some 97, some 98, some 47] ∧ σ 3 = [some 65, some 66, some 65, some 66] :=
+  ⟨_, rfl, by decide, by decide, by decide⟩
+
+/-- hence (by `run_total`) the model executes this history without fault and ends in these values,
+    and the final state is a `Reach` state to which all theorems above apply -/
+example : ∃ s, Reach 7 exampleRegs s ∧ absVar s 3 = [some 65, some 66, some 65, some 66] ∧ s.regs = exampleRegs := by
+  have h0 : absVar (init 7 exampleRegs) = fun _ => [] := by funext w; simp [absVar, init]
+  obtain ⟨s, hr, hw⟩ := run_total (good_init 7 exampleRegs) (ops := exampleProg)
+    (σ' := (Spec.run exampleRegs (fun _ => []) exampleProg).getD (fun _ => []))
+    (by simp [exampleProg, ValidArgs, validVar, userVars, init, exampleRegs])
+    (by rw [h0]; rfl)
+  refine ⟨s, ⟨exampleProg, hr⟩, ?_, foreign_untouched ⟨exampleProg, hr⟩⟩
+  rw [hw 3]; decide
+
+example : strstrL [97, 98, 97, 98] [98, 97] = some 1 ∧ findLastLoop [97, 98, 97, 98] [97, 98] 5 0 none = some 2 ∧
+    findLastLoop [97, 98] [] 3 0 none = some 2 ∧ strcmpL [97, 98] [97, 128] < 0 := by decide
 
 end Nstd.Str
